@@ -63,6 +63,8 @@ def run(R):
                       "pattern; the lowering of a group handles EVERY member (deferred filter, BIND, or joined sub-plan - no member is "
                       "skipped); every deferred FILTER becomes a selection, and only after all other members of the group were lowered; "
                       "UNION lowers every branch")
+    R.rule("C01-R11", "no component of a pattern / operator is ignored: the lowering, the planner and the executor each read EVERY field of "
+                      "EVERY variant of the enum they walk (one audited exception: the diagnostic label of an in-memory buffer)")
     R.rule("C01-R7", "plan memo completeness (shared with C02-R1): two different sub-plans of one query never share a memo entry")
     r1(R)
     r2(R)
@@ -74,6 +76,7 @@ def run(R):
     r8(R)
     r9(R)
     r10(R)
+    r11(R)
 
 
 def r1(R):
@@ -750,3 +753,51 @@ def r10(R):
             if all(n in ("collect", "branch") for n in cons):
                 oku = True
     R.ob("C01-R10", "union-branches", "UNION lowers every branch (map over all branches, no truncation)", oku, where=lw.where(un[0].ln if un else None))
+
+
+_R11_EXCEPTIONS = {("execute_with_ids_and_input", "InMemoryBuffer", "origin"): "diagnostic label of a buffer, not part of its content"}
+
+
+def r11(R):
+    prog = R.prog
+    walkers = [("utils::build_logical_plan_from_group_in_scope", GGP), ("Streamertail::find_best_plan_recursive", LOP),
+               ("ExecutionEngine::execute_with_ids_and_input", POP)]
+    nfields = 0
+    for suf, adtk in walkers:
+        b = R.body("C01-R11", suf, crate="kolibrie")
+        a = prog.adt(adtk)
+        a = a[0] if isinstance(a, list) and a else a
+        if b is None or not a:
+            R.ob("C01-R11", "adt:" + adtk, "the enum %s is known" % adtk, bool(a))
+            continue
+        reads = {}
+
+        def note(pl):
+            v = None
+            for e in pl["p"]:
+                if e["k"] == "downcast":
+                    v = e.get("n")
+                if e["k"] == "field" and e.get("adt") == adtk and v:
+                    reads.setdefault(v, set()).add(e["n"])
+        for x in prog.family(b.key):
+            for bb, i, pl, rv, st in x.assigns():
+                for p2, k in F.rv_places(rv):
+                    note(p2)
+                note(pl)
+            for bb, t in x.terms():
+                if t["t"] == "call":
+                    for a_ in t["args"]:
+                        p2 = F.op_place(a_)
+                        if p2:
+                            note(p2)
+        for v in a["variants"]:
+            for f in v["fields"]:
+                nfields += 1
+                key = (b.name, v["name"], f["name"])
+                ok = f["name"] in reads.get(v["name"], set())
+                if not ok and key in _R11_EXCEPTIONS:
+                    R.advisory("C01-R11", "audited exception %s: %s" % (key, _R11_EXCEPTIONS[key]))
+                    continue
+                R.ob("C01-R11", "reads:%s:%s:%s" % key, "%s reads %s::%s" % key, ok, where=b.where(),
+                     detail=None if ok else "the walker never looks at this component: queries that differ only in it are treated alike")
+    R.floor("C01-R11", "variant fields of the walked enums", nfields, 60)
